@@ -58,7 +58,7 @@ def ssChunk (useSpec : Bool) (cfg : ServerCfg Points) (hs : List (Nat × Points)
     Bytes × List (Nat × Points) × Bool :=
   if useSpec then
     let acc := srvLoop (Rtu.parse .request) (Spec.Server.respond cfg) true .start RB.empty
-      ⟨[], [], hs, none⟩ [.data bs]
+      ⟨[], [], hs, none, none⟩ [.data bs]
     (acc.tx, acc.hs, acc.ended != some "io.eof")
   else
     let o := runSession .rtu cfg {} hs [SessStep.data bs, SessStep.eof]
